@@ -292,9 +292,10 @@ theorem directions_independent (cd : Codec) (s s' : Stream) (b : Bytes) (es : Bo
 /-! ## 7. Facts regenerated from the source on every check (finite tables: `decide`) -/
 
 /-- adapter.Header tests `content-type` = `application/grpc` (for equality: `==` or a `case`
-of a `switch h.Name`) and reads `grpc-encoding` -/
+of a `switch` on the name; in `adapter.Header` itself or in a helper it calls) and reads
+`grpc-encoding`; nothing else is compared with a header field -/
 theorem facts_grpc_header_tests : Generated.Grpc.headerTests =
-    [("h.Name", "content-type"), ("h.Value", "application/grpc"), ("h.Name", "grpc-encoding")] := by decide
+    [("Name", "content-type"), ("Value", "application/grpc"), ("Name", "grpc-encoding")] := by decide
 
 theorem facts_grpc_encoding_names : Generated.Grpc.encodingNames =
     [("identity", "Identity"), ("gzip", "Gzip"), ("deflate", "Deflate"), ("snappy", "Snappy")] := by decide
